@@ -40,6 +40,9 @@ func runC20(w *World, r *Report, tier string) {
 			return
 		}
 		resolved := rvI(ret.Results[0], len(path)-1)
+		if rv := resolveOn(rres(path, ret)[0], len(path)-1, path); rv != nil {
+			resolved = rv // (a named result: what it holds on this path)
+		}
 		var parts []string
 		isPort := func(v ssa.Value) bool {
 			v = rvAny(v)
